@@ -87,6 +87,9 @@ func c05Check(c C05Case, cx *h.Ctx) *h.Failure {
 	if string(app) != string(prefix)+text {
 		return h.Failf("wkt/append", "AppendWKT(%q) = %q, want prefix+AsText() = %q", prefix, app, string(prefix)+text)
 	}
+	if app2 := g.AppendWKT(app); string(app2) != string(prefix)+text+text {
+		return h.Failf("wkt/append", "AppendWKT applied twice = %q, want prefix+AsText()+AsText()", app2)
+	}
 	for _, spare := range []int{len(text), len(text) - 1, len(text) + 31} {
 		if spare < 0 {
 			continue
